@@ -177,8 +177,14 @@ static bool do_consume(Topic::Consumer& cons, ConsumerLog& log, size_t k, bool s
   return m == k;
 }
 
-static void consumer_body(Ctx& c, ConsumerLog& log, uint64_t seed, size_t prefix) {
+static void consumer_body(Ctx& c, ConsumerLog& log, uint64_t seed, size_t prefix, std::atomic<int>* past_prefix = nullptr) {
   Rng r(seed);
+  struct Arrive {   // tell the publishers that this consumer is past the sequential prefix (or gone)
+    std::atomic<int>* p;
+    bool done = false;
+    void now() { if (p && !done) { done = true; p->fetch_add(1); } }
+    ~Arrive() { now(); }
+  } arrive {past_prefix};
   vrt_event("subscribe");
   auto cons = c.topic.subscribe();
   bool resub = r.below(100) < 8;
@@ -188,6 +194,7 @@ static void consumer_body(Ctx& c, ConsumerLog& log, uint64_t seed, size_t prefix
     if (!do_consume(cons, log, first, false)) return;
     if (first < prefix && !do_consume(cons, log, prefix - first, false)) return;
   }
+  arrive.now();
   int calls = 0;
   for (;;) {
     bool single = r.below(100) < 35;
@@ -253,7 +260,7 @@ static void run(uint64_t seed, bool lock) {
     size_t prefix = 0;
     {
       uint64_t d = rng.below(100);
-      if (d < 40) prefix = BS - 10 + rng.below(10);
+      if (d < 40) prefix = BS - 1 - rng.below(8);
       else if (d < 55) prefix = 1 + rng.below(5);
     }
     int P = 1 + (int)rng.below(3), C = 1 + (int)rng.below(3);
@@ -279,10 +286,14 @@ static void run(uint64_t seed, bool lock) {
     std::vector<ConsumerLog> logs(C + 1);
     std::vector<std::thread> pubs, cons;
     std::atomic<int> done {0};
+    // in most cycles with a long prefix the publishers start only when every consumer stands at the end of
+    // the prefix, so that consumers sleep on slots around the block boundary
+    std::atomic<int> past_prefix {0};
+    bool hold_publishers = prefix >= 100 && rng.below(100) < 60;
     auto spawn_consumers = [&] {
       for (int k = 0; k < C; ++k) {
         uint64_t s = rng.next();
-        cons.emplace_back([&, k, s] { consumer_body(c, logs[k], s, prefix); });
+        cons.emplace_back([&, k, s] { consumer_body(c, logs[k], s, prefix, &past_prefix); });
       }
     };
     auto do_close = [&] {
@@ -293,6 +304,8 @@ static void run(uint64_t seed, bool lock) {
     if (consumers_first) spawn_consumers();
     for (int p = 0; p < P; ++p) {
       pubs.emplace_back([&, p] {
+        if (hold_publishers)
+          while (past_prefix.load() < C) sched_yield();
         for (auto& call : prog[p]) do_publish(c, call.n, call.base, call.single);
         if (done.fetch_add(1) + 1 == P && publisher_closes) do_close();
       });
